@@ -207,7 +207,7 @@ def run(run, model):
     run.do(c17.invariant_decorator_table, model, "C14.invariant-returns-cls")
     run.do(twins.colour, model, "C14.colour")
     run.do(twins.body_await, model, "C14.body-await")
-    run.do(inv.install, model, "C14.install", "C14.new-guard")
+    run.do(inv.install, model, "C14.install", "C14.new-guard", "C14.metadata")
     # which members are wrapped at all: static and class methods (own or inherited) stay as they are
     run.do(inv.selection, model, "C14.wrapped-members", "C14.wrapped-members-source")
     from . import meta
